@@ -8,6 +8,11 @@
           | (none) | (some T) | (and T T) | (ref T) | (boxed T) | (shared T) | (erased T)
           | (asmap T) | (dedup T) | (empty)
           | (marr (xK V|none)…)                            -- a `__PrivateMacroProps` runtime array, at most 4 elements
+          | (extent N) | (extent N M)                      -- N, M < 2^50 nanoseconds
+          | (spanctxt TRACE SPAN PARENT)                   -- each `none` or a non-zero id < 2^63
+          | (span xNAME T) | (metric xNAME xAGG V T)
+          | (frame STAGE…)   STAGE ::= (root T) | (push T) -- the frame a real ThreadLocalCtxt holds after the stages
+      top level only: (snap direct|opt|optnone|erased STAGE…)   -- observed inside `with_current`
       V ::= (i N) | (s xSTR)
       e  = enumeration (hash-map segments are listed in key order on both sides), u = is_unique,
       g  = get per query key, p = pull::<i64> per query key, d = enumeration of `.dedup()`, dg = get on `.dedup()`,
@@ -38,6 +43,18 @@ def optEntry? : Sexp → Option (String × Option Val)
   | .list [k, v] => do pure ((← k.str?), some (← val? v))
   | _ => none
 
+def ts? (s : Sexp) : Option Nat := s.nat?.bind fun n => if n < 2 ^ 50 then some n else none
+
+def optId? : Sexp → Option (Option Nat)
+  | .atom "none" => some none
+  | s => s.nat?.bind fun n => if n == 0 || n ≥ 2 ^ 63 then none else some (some n)
+
+mutual
+partial def stages? (cur : List (String × Val)) : List Sexp → Option (List (String × Val))
+  | [] => some cur
+  | .list [.atom "root", t] :: rest => do stages? (pushInto [] (enum (← tree? t))) rest
+  | .list [.atom "push", t] :: rest => do stages? (pushInto cur (enum (← tree? t))) rest
+  | _ => none
 partial def tree? : Sexp → Option P
   | .list [.atom "pair", k, v] => do pure (.pair (← k.str?) (← val? v))
   | .list (.atom "slice" :: ts) => (ts.mapM tree?).map .slice
@@ -55,13 +72,35 @@ partial def tree? : Sexp → Option P
   | .list [.atom "dedup", t] => (tree? t).map .dedup
   | .list [.atom "empty"] => some .empty
   | .list (.atom "marr" :: es) => if es.length ≤ 4 then (es.mapM optEntry?).map .macro else none
+  | .list [.atom "extent", n] => (ts? n).map .extentPoint
+  | .list [.atom "extent", a, b] => do pure (.extentRange (← ts? a) (← ts? b))
+  | .list [.atom "spanctxt", t, sp, pa] => do pure (.spanCtxt (← optId? t) (← optId? sp) (← optId? pa))
+  | .list [.atom "span", name, t] => do pure (.spanView (← name.str?) (← tree? t))
+  | .list [.atom "metric", name, agg, v, t] => do pure (.metricView (← name.str?) (← agg.str?) (← val? v) (← tree? t))
+  | .list (.atom "frame" :: sts) => (stages? [] sts).map .frame
   | _ => none
+end
+
+/-- Top level: a tree, or an ambient snapshot as `with_current` hands it out — the frame itself (`direct`),
+    `Option<Slot<frame>>` for `Option<C>` (core/src/ctxt.rs:119-127; `optnone`: `None`), `ErasedCurrent` over
+    `dyn ErasedProps` for `dyn ErasedCtxt` (:509-518). -/
+def top? : Sexp → Option P
+  | .list (.atom "snap" :: .atom kind :: sts) => do
+    let es ← stages? [] sts
+    match kind with
+    | "direct" => some (.frame es)
+    | "opt" => some (.optSome (.slot (.frame es)))
+    | "optnone" => some .optNone
+    | "erased" => some (.slot (.erased (.frame es)))
+    | _ => none
+  | t => tree? t
 
 def hx (s : String) : String := hexOfBytes s.toUTF8.toList
 
 def showVal : Val → String
   | .int i => s!"i{i}"
   | .str s => "s" ++ hx s
+  | .tok tag n => tag ++ toString n
 
 def showPairs (xs : List (String × Val)) : String :=
   ",".intercalate (xs.map fun (k, v) => hx k ++ ":" ++ showVal v)
@@ -102,12 +141,21 @@ partial def ctors : P → List String
   | .dedup p => "dedup" :: ctors p
   | .empty => ["empty"]
   | .macro _ => ["marr"]
+  | .extentPoint _ => ["extent"]
+  | .extentRange _ _ => ["extent"]
+  | .spanCtxt _ _ _ => ["spanctxt"]
+  | .spanView _ p => "span" :: ctors p
+  | .metricView _ _ _ p => "metric" :: ctors p
+  | .frame _ => ["frame"]
+  | .slot p => "slot" :: ctors p
 
 def topCtor : P → String
   | .pair _ _ => "pair" | .slice _ => "slice" | .arr _ => "arr" | .btree _ => "btree" | .hash _ => "hash"
   | .optNone => "none" | .optSome _ => "some" | .and _ _ => "and" | .ref _ => "ref" | .boxed _ => "boxed"
   | .shared _ => "shared" | .erased _ => "erased" | .asMap _ => "asmap" | .dedup _ => "dedup" | .empty => "empty"
   | .macro _ => "marr"
+  | .extentPoint _ => "extent" | .extentRange _ _ => "extent" | .spanCtxt _ _ _ => "spanctxt" | .spanView _ _ => "span"
+  | .metricView _ _ _ _ => "metric" | .frame _ => "frame" | .slot _ => "slot"
 
 def observe (p : P) (qs : List String) : String :=
   let e := enum p
@@ -120,7 +168,7 @@ def observe (p : P) (qs : List String) : String :=
 def runC02 (line : String) : String :=
   match Sexp.parse line with
   | some (.list [.atom "c02", t, .list (.atom "q" :: qs)]) =>
-    match tree? t, qs.mapM Sexp.str? with
+    match top? t, qs.mapM Sexp.str? with
     | some p, some qs =>
       let e := enum p
       let cs := (ctors p).eraseDups
